@@ -1250,7 +1250,7 @@ class Extractor:
             out.append(epi)
         out.append('}')
         if self.template_path and getattr(blk, 'end_line', None):
-            out.append('#line %d "%s"' % (blk.end_line + 1, self.template_path))
+            out.append('#line %d "%s"' % (blk.end_line, self.template_path))
         rep['signature'] = sig
         self.report['functions'].append(rep)
         return '\n'.join(out) + '\n'
